@@ -12,6 +12,7 @@ SMILES_POOL = [
     'C[CH2]', 'C[O]', '[H]C([H])([H])O', '[2H]C(Cl)(F)Br', '[13CH4]', 'Cl[Fe]Cl', 'N[Cu]N', 'CCN.CCO', 'C.C.C',
     'OC(=O)C(O)=O', 'CC#CC', 'C(=O)=O', 'N#N', 'S=C=S', '[Fe+3]', '[O-2]', '[Ti+4]', '[C-4]', '[Si-4]', '[U+4]', '[Pt+2]',
     'ClC(Cl)Cl', 'BrCCBr', 'FC(F)(F)F', 'CSSC', 'C[S-]', '[NH3+]CC([O-])=O', 'O', 'N', '[OH-]', '[H+]', '[He]', '[18OH2]',
+    'C' * 104, 'CC(C)' * 34 + 'C', 'N' + 'CCO' * 40, 'C1CC1' + 'CC1CC1' * 20,          # 100+ atoms: three-digit counts and indices
     '[13CH3][13CH2][18OH]', '[2H]C([2H])([2H])O', '[13CH3][15NH2]', '[13CH3]C(=[18O])[18OH]', '[14CH3][13CH2][15NH3+]', '[11B](O)O', '[37Cl][13CH2][37Cl]',
     'CC(C)CC1=CC=C(C=C1)C(C)C(O)=O', 'CN1C=NC2=C1C(=O)N(C)C(=O)N2C', 'OC1=CC=CC=C1', 'C1CCOC1', 'C1COCCO1',
 ]
@@ -95,7 +96,11 @@ def gen_mol_spec(rng, cfg, small=False):
     else:
         spec = {'k': 'smi', 's': rng.choice(SMILES_POOL), 'edits': []}
         for _ in range(rng.choice([0, 0, 1, 1, 2, 3])):
-            kind = rng.choice(['charge', 'charge', 'iso', 'rad', 'b8', 'num', 'num'])
+            kind = rng.choice(['charge', 'charge', 'iso', 'rad', 'b8', 'num', 'num', 'xy'])
+            if kind == 'xy':
+                spec['edits'].append(['xy', rng.randrange(128), rng.choice([-9999.9999, -1000.0, -0.0, 0.00004, 99999.9999, 12345.678, -0.00005, 1.5]),
+                                      rng.choice([-9999.9999, -123.4567, 0.0, 9999.5, 1e-9, 2.25])])
+                continue
             if kind == 'charge':
                 spec['edits'].append(['charge', rng.randrange(32), rng.choice([-4, -3, -2, -1, 1, 2, 3, 4])])
             elif kind == 'iso':
@@ -184,6 +189,8 @@ def build_mol(spec):
                 a._isotope = isos[e[2] % len(isos)]
             elif e[0] == 'rad':
                 m._atoms[atoms[e[1] % len(atoms)]]._is_radical = True
+            elif e[0] == 'xy':
+                m._atoms[atoms[e[1] % len(atoms)]].xy = (e[2], e[3])
             elif e[0] == 'b8':
                 n, k = atoms[e[1] % len(atoms)], atoms[e[2] % len(atoms)]
                 if n != k and k not in m._bonds[n]:
